@@ -14,6 +14,7 @@ import (
 	"time"
 
 	"github.com/diiyw/nodis"
+	"github.com/diiyw/nodis/ds"
 	"github.com/diiyw/nodis/ds/list"
 	"github.com/diiyw/nodis/storage"
 )
@@ -47,15 +48,20 @@ func keyName(k string) string { return "k" + k }
 func runScenario(id, valspec, cmdspec, schedspec string, settle time.Duration) string {
 	// scenarios whose id starts with "c-" begin with every key evicted to a copying storage (Pebble):
 	// the first command on a key reloads the value under the key lock
+	// "s-": Pebble, nothing flushed before the threads start (every key is dirty); a SAVE thread runs the flush of the
+	// SAVE command; the outcome also reports what storage holds for every key (stored=k:len)
+	saveScn := strings.HasPrefix(id, "s-")
 	cold := strings.HasPrefix(id, "c-")
 	var n *nodis.Nodis
-	if cold {
+	var peb *storage.Pebble
+	if cold || saveScn {
 		dir, err := os.MkdirTemp("", "vh-conc-cold-")
 		if err != nil {
 			panic(err)
 		}
 		defer os.RemoveAll(dir)
-		n = nodis.Open(&nodis.Options{Storage: storage.NewPebble(dir, nil)})
+		peb = storage.NewPebble(dir, nil)
+		n = nodis.Open(&nodis.Options{Storage: peb})
 		defer func() {
 			// Close flushes under every key lock: a scenario that ended in a deadlock would hang here
 			fin := make(chan struct{})
@@ -146,6 +152,9 @@ func runScenario(id, valspec, cmdspec, schedspec string, settle time.Duration) s
 					r = int64(len(n.LPop(keyName(p[1]), 1)))
 				case "LEN":
 					r = n.LLen(keyName(p[1]))
+				case "SAVE":
+					n.VerifFlush()
+					r = 1
 				case "DEL":
 					r = n.Del(keyName(p[1]))
 				case "MOVE":
@@ -258,7 +267,31 @@ func runScenario(id, valspec, cmdspec, schedspec string, settle time.Duration) s
 		}
 		return strings.Join(l, ",")
 	}
-	return fmt.Sprintf("OUT %s vals=%s replies=%s waiting=%s notdone=%s", id, j(vals), j(replies), j(waiting), j(notdone))
+	stored := ""
+	if saveScn && peb != nil {
+		var st []string
+		got := map[string]int64{}
+		for _, e := range peb.VerifEntries() {
+			key, err := ds.DecodeKey([]byte(e.EncKey))
+			if len(e.Bytes) > 0 && err == nil {
+				l := list.NewLinkedList()
+				func() {
+					defer func() { recover() }()
+					l.SetValue(e.Bytes[1:])
+					got[key.Name] = l.LLen()
+				}()
+			}
+		}
+		for _, k := range ks {
+			if v, ok := got[keyName(k)]; ok {
+				st = append(st, fmt.Sprintf("%s:%d", k, v))
+			} else {
+				st = append(st, k+":-")
+			}
+		}
+		stored = " stored=" + j(st)
+	}
+	return fmt.Sprintf("OUT %s vals=%s replies=%s waiting=%s notdone=%s%s", id, j(vals), j(replies), j(waiting), j(notdone), stored)
 }
 
 func concMain(args []string) {
